@@ -32,10 +32,14 @@ fn setup(ctx: &mut Ctx) {
     ctx.floor("scoped-out:compressed", 10);
     ctx.floor("long-history:distinct-ranges>=64", 100);
     ctx.floor("long-history:multi-range-query", 2000);
+    ctx.floor("sparse:streams-judged", 2000);
+    ctx.floor("sparse:content-queries-equal", 20_000);
+    ctx.floor("sparse:offsets>=2^32", 500);
+    ctx.floor("reader:initial-position-nonzero", 1000);
 }
 
 fn strata(t: Tier) -> Vec<Stratum> {
-    vec![st("generated-histories", scale(t, 640_000, 6_400_000, 4)), st("seed-files", scale(t, 6_400, 64_000, 0)), st("mutated-and-random", scale(t, 640_000, 6_400_000, 4)), st("many-sections-long-histories", scale(t, 8_000, 80_000, 1))]
+    vec![st("generated-histories", scale(t, 640_000, 6_400_000, 4)), st("seed-files", scale(t, 6_400, 64_000, 0)), st("mutated-and-random", scale(t, 640_000, 6_400_000, 4)), st("many-sections-long-histories", scale(t, 8_000, 80_000, 1)), st("sparse-huge-streams", scale(t, 80_000, 800_000, 2))]
 }
 
 pub struct ApiTag<'a> {
@@ -228,6 +232,14 @@ pub fn judge_file(ctx: &mut Ctx, data: &[u8], what: &str, max_hist: usize) {
     let seed = ctx.rng.next_u64();
     let rc = Rc::new(data.to_vec());
     let (reader, handle) = new_reader(rc, policy, seed);
+    if ctx.rng.bool() {
+        // the stream is handed over standing anywhere (also at or past its end)
+        let p = ctx.rng.below(data.len() as u64 + 3);
+        if p > 0 {
+            ctx.count("reader:initial-position-nonzero");
+        }
+        handle.set_pos(p);
+    }
     let slice = ElfBytes::<AnyEndian>::minimal_parse(data);
     let stream = ElfStream::<AnyEndian, MonReader>::open_stream(reader);
     ctx.eval();
@@ -367,16 +379,139 @@ fn trunc(o: &Obs) -> String {
     }
 }
 
+/// A stream far larger than memory: the generated file with a hole of zeros spliced in at a structure boundary and every
+/// file offset behind the hole moved up accordingly (offsets near 2^32 for ELF32, 2^32..2^62 for ELF64). Every
+/// content query must give what the slice parser gives on the original file.
+fn sparse_case(ctx: &mut Ctx, enc: Enc) {
+    let mut o = GenOpts::standard();
+    o.weird_views = false;
+    o.max_syms = 8;
+    o.density = 6;
+    let (spec, _) = gen_object(&mut ctx.rng, enc, &o);
+    let b = build(&spec, &mut ctx.rng);
+    let data = &b.bytes[..];
+    let Ok(r) = ref_open(data, &[1, 2]) else { return };
+    // every (start, end) of a structure in the file
+    let mut ranges: Vec<(u64, u64)> = Vec::new();
+    let ehsize = if enc.c64 { 64 } else { 52 };
+    ranges.push((0, ehsize));
+    if let Some((off, n)) = r.shdrs {
+        ranges.push((off as u64, off as u64 + (n * crate::codec::size_of(crate::codec::St::Shdr, enc.c64)) as u64));
+    }
+    if let Some((off, n)) = r.phdrs {
+        ranges.push((off as u64, off as u64 + (n * crate::codec::size_of(crate::codec::St::Phdr, enc.c64)) as u64));
+    }
+    for i in 0..r.shnum() {
+        if let Some(sh) = r.shdr(i) {
+            if sh.get("sh_type") != k::SHT_NOBITS as u64 && sh.get("sh_type") != 0 {
+                ranges.push((sh.get("sh_offset"), sh.get("sh_offset").saturating_add(sh.get("sh_size"))));
+            }
+        }
+    }
+    for i in 0..r.phnum() {
+        if let Some(ph) = r.phdr(i) {
+            ranges.push((ph.get("p_offset"), ph.get("p_offset").saturating_add(ph.get("p_filesz"))));
+        }
+    }
+    let mut cands: Vec<u64> = ranges.iter().map(|x| x.0).filter(|s| *s >= ehsize && *s <= data.len() as u64).collect();
+    cands.sort();
+    cands.dedup();
+    cands.retain(|at| !ranges.iter().any(|(s, e)| s < at && at < e));
+    if cands.is_empty() {
+        ctx.count("sparse:no-cut-point");
+        return;
+    }
+    let at = cands[ctx.rng.usize_below(cands.len())];
+    let hole: u64 = if enc.c64 {
+        [1u64 << 32, (1 << 32) - 16, (1 << 33) + 0x1234, 1 << 40, 1 << 47, (1 << 62) + 8][ctx.rng.usize_below(6)]
+    } else {
+        // all shifted offsets must still fit in 32 bits
+        let room = 0xffff_ffffu64 - data.len() as u64;
+        [room, room - 1, 0x8000_0000 - at.min(0x7fff_ffff), 0x7fff_0000, 0xf000_0000u64.min(room)][ctx.rng.usize_below(5)]
+    };
+    let mut shifted = b.clone();
+    let names: Vec<String> = shifted.fields.iter().map(|f| f.name.clone()).filter(|n| n == "ehdr.e_shoff" || n == "ehdr.e_phoff" || n.ends_with(".sh_offset") || n.ends_with(".p_offset")).collect();
+    for n in names {
+        let f = shifted.field(&n).cloned().unwrap();
+        let v = enc.get(&shifted.bytes, f.off, f.w).unwrap_or(0);
+        if v >= at && v != 0 {
+            shifted.poke(&n, v + hole);
+        }
+    }
+    if at.saturating_add(hole) >= 1 << 32 {
+        ctx.count("sparse:offsets>=2^32");
+    }
+    let (policy, pname) = gen_policy(ctx);
+    let seed = ctx.rng.next_u64();
+    let (reader, handle) = new_reader(Rc::new(shifted.bytes.clone()), policy, seed);
+    handle.set_hole(at, hole);
+    ctx.set_input(data);
+    ctx.nontrivial(crate::rng::mix(crate::rng::fnv64(data), at ^ hole));
+    let what = format!("generated {} ({} bytes) with a hole of {hole:#x} zero bytes at {at:#x} [{pname}]", enc.name(), data.len());
+    ctx.sample(|| what.clone());
+    let slice = match ElfBytes::<AnyEndian>::minimal_parse(data) {
+        Ok(s) => s,
+        Err(_) => return,
+    };
+    let mut stream = match ElfStream::<AnyEndian, MonReader>::open_stream(reader) {
+        Ok(s) => s,
+        Err(e) => {
+            ctx.violation("sparse:open-fails", format!("{what}: the slice parser opens the original file but open_stream fails on the relocated stream: {e:?}"));
+            return;
+        }
+    };
+    ctx.count("sparse:streams-judged");
+    let mut queries: Vec<Query> = vec![Query::SymbolTable, Query::DynSymbolTable, Query::Dynamic, Query::SymVer];
+    for i in 0..r.shnum().min(40) {
+        queries.push(Query::SectionData(i));
+        if let Some(sh) = r.shdr(i) {
+            let t = sh.get("sh_type");
+            if t == k::SHT_STRTAB as u64 {
+                queries.push(Query::AsStrtab(i));
+            } else if t == k::SHT_REL as u64 {
+                queries.push(Query::AsRels(i));
+            } else if t == k::SHT_RELA as u64 {
+                queries.push(Query::AsRelas(i));
+            } else if t == k::SHT_NOTE as u64 {
+                queries.push(Query::AsNotes(i));
+            }
+        }
+    }
+    for j in 0..r.phnum().min(8) {
+        queries.push(Query::SegmentNotes(j));
+    }
+    ctx.rng.shuffle(&mut queries);
+    for (i, q) in queries.iter().enumerate() {
+        ctx.eval();
+        if touches_compressed(&r, q) {
+            continue;
+        }
+        let a = obs_slice(&slice, q);
+        let b2 = obs_stream(&mut stream, q, &mut ApiTag { h: &handle, api: i as u32 + 1 });
+        match (&a, &b2) {
+            (Ok(x), Ok(y)) if x == y => ctx.count("sparse:content-queries-equal"),
+            (Err(_), Err(_)) => ctx.count("sparse:both-err"),
+            (Err(_), Ok(_)) if !exact_coincidence(q) => ctx.count("sparse:slice-err-stream-ok(allowed)"),
+            _ => {
+                ctx.violation(&format!("sparse:{}:differs", q.label()), format!("{what}: {:?}: slice on the original file {} vs stream {}", q, trunc(&a), trunc(&b2)));
+                return;
+            }
+        }
+    }
+}
+
 fn run(ctx: &mut Ctx, si: usize, case: u64) {
     let enc = Enc::ALL[ctx.rng.usize_below(4)];
     match si {
+        4 => sparse_case(ctx, enc),
         0 => {
             let mut o = GenOpts::unmodelled();
             o.max_syms = 10;
             o.density = 6;
             let (spec, _) = gen_object(&mut ctx.rng, enc, &o);
-            let b = build(&spec, &mut ctx.rng);
-            judge_file(ctx, &b.bytes, &format!("generated {}", enc.name()), 40);
+            let mut b = build(&spec, &mut ctx.rng);
+            let enc_log = if ctx.rng.chance(1, 6) { mutate::extended_encoding(&mut ctx.rng, &mut b) } else { Vec::new() };
+            judge_file(ctx, &b.bytes, &format!("generated {} {:?}", enc.name(), enc_log), 40);
         }
         1 => {
             let s = seeds();
